@@ -65,11 +65,13 @@ def run(chk, replay=None):
                             "context -> owned store objects, groups (cast to optional traits, clone in the host, cast back), borrowed child, consuming call; store calls with slices/str/callback/"
                             "iterator/struct/Option/int-result; plugin-made CVec grown, written and released by the host and host-made CVec consumed by the plugin; host-made store consumed by "
                             "the plugin; every digest compared with the same history on objects made inside the host; both allocators must see no foreign or mis-sized free, the plugin no "
-                            "leftover instance. Pairs drawn from {stable 1.95, nightly 1.97, 1.98.1, nightly-2026-08-21} x {debug, release} x randomized repr(Rust) layout. evaluations = histories")
+                            "leftover instance; a plugin-made object that is the only holder of its context is consumed by a by-value call: the context must die in the caller's frame, not under "
+                            "the other module's wrapper (backtrace of the payload's Drop). Pairs drawn from {stable 1.95, nightly 1.97, 1.98.1, nightly-2026-08-21} x {debug, release} x randomized repr(Rust) layout. evaluations = histories")
     chk.part("matrix", builds=sorted(built), ordered_pairs=len(pairs))
     chk.floor("module pairs", len(pairs), 2)
     chk.floor("histories", hist, 200)
     tracking = min([int(v.get("plugin_tracking_active", 0)) for k, v in chk.parts.items() if k.startswith("host[")] or [0])
     chk.floor("plugin allocator tracking active", tracking, 1)
+    chk.floor("consuming calls on a sole-context object judged by the backtrace oracle", sum(int(v.get("consuming_calls_with_sole_context", 0)) for k, v in chk.parts.items() if k.startswith("host[")), 50)
     chk.assumptions += ["an owned ReprCString has no drop function and is therefore not among the values C05 lists; the harness passes text through caller-owned buffers",
                         "the open C07 finding (context clone left behind by borrowed-child calls) is tolerated in the context-count cross-check of this property"]
